@@ -10,6 +10,8 @@ mod ext_c13;
 mod ext_c18;
 mod ext_c09;
 mod gen_c09;
+mod ext_c11;
+mod ext_c14;
 mod enc;
 mod gen;
 mod interp;
